@@ -137,10 +137,11 @@ package provider
 //@ func (*provider.IdentityProvider).callbackHandleFunc
 //@   inline
 //@   property C09
+//@   writes fresh C15
 //@   requires wfIDP(p) && wfReq(r) && w != nil
 //@   requires !faulted
 //@   ensures C01,C08,C10.exactly-one-reply: emitCount == old(emitCount) + 1
-//@   ensures C01,C02.reply-is-error-or-one-unmodified-response: httpError() || (isResponse() && msgCurrent() &&
+//@   ensures C01,C02,C17.reply-is-error-or-one-unmodified-response: httpError() || (isResponse() && msgCurrent() &&
 //@             (sentBody() || (arOK && sentForm(p.postTemplate, arAcsURL(arReq), arRelayState(arReq))) || (arOK && emitKind == 2 && emitCode == 302)))
 //@   ensures C01.success-only-for-a-stored-request-that-is-done: !httpError() && statusOf() == StatusCodeSuccess ==>
 //@             arOK && arKey == valuesGet(r.Form, "id") && arKey != "" && arDone(arReq)
@@ -206,6 +207,7 @@ package provider
 //@ func (*provider.IdentityProvider).ssoHandleFunc
 //@   inline
 //@   property C09
+//@   writes fresh C15
 //@   requires wfIDP(p) && wfReq(r) && w != nil
 //@   requires !faulted && !persistedAfterFault
 //@   ## C08: one request, one outcome
@@ -214,6 +216,7 @@ package provider
 //@   ensures C08.accepted-means-login-redirect-for-the-stored-id: accepted() ==> emitKind == 2 && emitCode == 303 && spOK &&
 //@             emitStr == fnStr1(regSP().loginURL, arID(persistRes))
 //@   ensures C08,C10.otherwise-one-failure-reply: !accepted() ==> failedReply()
+//@   ensures C15.fresh-response-id: !httpError() && emitKind != 2 ==> idIndex(respMsg().Id) >= old(idCount) && respMsg().Id == idOf(idIndex(respMsg().Id))
 //@   ensures C11.issuer-of-every-reply-is-the-idp-entity-id: !httpError() && emitKind != 2 ==> respMsg().Issuer != nil && respMsg().Issuer.Text == idpEntityID(p, r)
 //@   ensures C08.never-persisted-when-unanswerable: persistCount == old(persistCount) + 1 ==> persistAcs != "" &&
 //@             (persistBinding == PostBinding || persistBinding == RedirectBinding)
@@ -224,7 +227,7 @@ package provider
 //@             rcReq == persistReq && rcSP == spRef &&
 //@             acsCalls == old(acsCalls) + 1 && acsBase == base(spAcs()) && acsLen == len(spAcs()) && acsVer == persistVer &&
 //@             persistAcs == acsUrl && persistBinding == acsBinding && acsUrl != ""
-//@   ensures C02.form-replies-target-the-selected-entry: emitKind == 4 ==> emitTmpl == p.postTemplate && emitTag == typetag("provider.authResponseForm") && spOK &&
+//@   ensures C02,C17.form-replies-target-the-selected-entry: emitKind == 4 ==> emitTmpl == p.postTemplate && emitTag == typetag("provider.authResponseForm") && spOK &&
 //@             acsCalls == old(acsCalls) + 1 && acsBase == base(spAcs()) && acsLen == len(spAcs()) &&
 //@             postForm().AssertionConsumerServiceURL == acsUrl && acsBinding == PostBinding && acsUrl != "" && postForm().RelayState == formValue(r, "RelayState")
 //@   ensures C02.redirect-replies-target-the-selected-entry: emitKind == 2 && emitCode == 302 ==> spOK &&
@@ -270,10 +273,11 @@ package provider
 //@ func (*provider.IdentityProvider).logoutHandleFunc
 //@   inline
 //@   property C09
+//@   writes fresh C15
 //@   requires wfIDP(p) && wfReq(r) && w != nil
 //@   requires !faulted
 //@   ensures C13,C10.exactly-one-reply: emitCount == old(emitCount) + 1
-//@   ensures C13.reply-is-error-or-one-unmodified-logout-response: httpError() || (isLogoutResponse() && msgCurrent() &&
+//@   ensures C13,C17.reply-is-error-or-one-unmodified-logout-response: httpError() || (isLogoutResponse() && msgCurrent() &&
 //@             (sentBody() || sentLogoutForm(p.logoutTemplate, lrMsg().Destination, valuesGet(r.Form, "RelayState"))))
 //@   ensures C13.success-only-for-a-decoded-request-of-a-registered-provider-inside-its-window: logoutSuccess() ==>
 //@             decCalls == old(decCalls) + 1 && decOK && decMsg == valuesGet(r.Form, "SAMLRequest") && decEnc == valuesGet(r.Form, "SAMLEncoding") &&
@@ -286,7 +290,7 @@ package provider
 //@   ensures C13,C02.form-goes-to-the-first-registered-logout-location: emitKind == 4 ==> spOK && len(spSLS()) > 0 && logoutForm().LogoutURL == spSLS()[0].Location &&
 //@             lrMsg().Destination == spSLS()[0].Location
 //@   ensures C13,C02.body-only-when-no-location-is-known: emitKind == 3 ==> lrMsg().Destination == "" && (spLookups == old(spLookups) || !spOK || len(spSLS()) == 0 || spSLS()[0].Location == "")
-//@   ensures C13.fresh-id: !httpError() ==> idIndex(lrMsg().Id) >= old(idCount) && lrMsg().Id == idOf(idIndex(lrMsg().Id))
+//@   ensures C13,C15.fresh-id: !httpError() ==> idIndex(lrMsg().Id) >= old(idCount) && lrMsg().Id == idOf(idIndex(lrMsg().Id))
 //@   ensures C10.fault-means-failure: faulted ==> httpError() || lrMsg().Status.StatusCode.Value != StatusCodeSuccess
 //@   canary C13.canary-never-success: !logoutSuccess()
 //@   canary C13.canary-always-success: !httpError() ==> logoutSuccess()
@@ -325,6 +329,7 @@ package provider
 //@ func (*provider.IdentityProvider).attributeQueryHandleFunc
 //@   inline
 //@   property C09
+//@   writes fresh C15
 //@   requires wfIDP(p) && wfReq(r) && w != nil
 //@   requires !faulted
 //@   ensures C12,C10.exactly-one-reply: emitCount == old(emitCount) + 1
@@ -341,6 +346,7 @@ package provider
 //@   ensures C12,C04.assertion-signed-as-sent: answered() ==> keyOK && aqResp().Assertion.Signature == sigOut && sigOut != nil && signCount == old(signCount) + 1 &&
 //@             signedTag == typetag("saml.AssertionType") && encVer == signedVer + 1 &&
 //@             eqExcept(as(signedBox, "saml.AssertionType"), aqResp().Assertion, "Signature") && as(signedBox, "saml.AssertionType").Signature == nil
+//@   ensures C15.fresh-distinct-ids: answered() ==> idIndex(aqResp().Id) >= old(idCount) && idIndex(aqResp().Assertion.Id) >= old(idCount) && aqResp().Id != aqResp().Assertion.Id
 //@   ensures C10.fault-means-error-reply: faulted ==> httpError() && emitCode >= 500
 //@   canary C12.canary-never-answered: !answered()
 //@ ## ---- user attributes ----
@@ -353,10 +359,12 @@ package provider
 //@ func provider.healthHandler
 //@   inline
 //@   property C09
+//@   writes fresh C15
 //@   requires wfReq(r) && w != nil
 //@ func provider.Readiness
 //@   inline
 //@   property C09
+//@   writes fresh C15
 //@   requires wfReq(r) && w != nil
 //@   requires forall i :: 0 <= i && i < len(probes) ==> probes[i] != 0
 //@   ensures C10.exactly-one-reply: emitCount == old(emitCount) + 1
@@ -371,6 +379,7 @@ package provider
 //@ func (*provider.IssuerInterceptor).setIssuerCtx
 //@   inline
 //@   property C09
+//@   writes fresh C15
 //@   requires i != nil && i.issuerFromRequest != 0 && wfReq(r) && next != nil
 //@
 //@ ## the two loops of getMetadata blank the values of attribute descriptions built in the same call
@@ -448,6 +457,9 @@ package provider
 //@             idp.endpoints.singleLogoutEndpoint.path == epPath(sloEP(conf), "SLO") && idp.endpoints.singleLogoutEndpoint.url == epURL(sloEP(conf)) &&
 //@             idp.endpoints.attributeEndpoint.path == epPath(attrEP(conf), "attribute") && idp.endpoints.attributeEndpoint.url == epURL(attrEP(conf)) &&
 //@             idp.endpoints.certificateEndpoint.path == epPath(certEP(conf), "certificate") && idp.endpoints.callbackEndpoint.path == epPath(cbEP(conf), "login")
+//@   ensures C17.default-pages-are-the-two-constants: err == nil ==> (old(conf.PostTemplate) == nil ==> tplSrc(idp.postTemplate) == postTemplate) &&
+//@             (old(conf.LogoutTemplate) == nil ==> tplSrc(idp.logoutTemplate) == logoutTemplate) &&
+//@             (old(conf.PostTemplate) != nil ==> idp.postTemplate == old(conf.PostTemplate)) && (old(conf.LogoutTemplate) != nil ==> idp.logoutTemplate == old(conf.LogoutTemplate))
 //@   ensures C03,C11.defaults: err == nil ==> idp.TimeFormat == DefaultTimeFormat && idp.Expiration == DefaultExpiration && idp.Expiration > 0 &&
 //@             idp.postTemplate != nil && idp.logoutTemplate != nil && conf.MetadataIDPConfig != nil && idp.metadataEndpoint.path == metadata.path && idp.metadataEndpoint.url == metadata.url
 //@
@@ -499,6 +511,7 @@ package provider
 //@ func (*provider.Provider).metadataHandle
 //@   inline
 //@   property C09
+//@   writes fresh C15
 //@   requires wfProvider(p) && wfReq(r) && w != nil
 //@   requires !faulted
 //@   ensures C10,C11.exactly-one-reply: emitCount == old(emitCount) + 1
@@ -511,8 +524,26 @@ package provider
 //@ func (*provider.IdentityProvider).certificateHandleFunc
 //@   inline
 //@   property C09
+//@   writes fresh C15
 //@   requires wfIDP(i) && wfReq(r) && w != nil
 //@   requires !faulted
 //@   ensures C10,C11.exactly-one-reply: emitCount == old(emitCount) + 1
 //@   ensures C10.fault-means-error-reply: faulted ==> httpError() && emitCode >= 500
 //@   ensures C11.serves-the-response-signing-certificate: !httpError() ==> emitKind == 3 && keyOK && emitStr == pemenc(string(as(keyRec, "key.CertificateAndKey").Certificate))
+//@
+//@ ## C17 (IdP side): the values handed to the page template are plain strings of a struct with exactly these three fields
+//@ func (*provider.Response).sendBackResponse
+//@   inline
+//@   property C17
+//@   requires r != nil && r.PostTemplate != nil && r.ErrorFunc != 0 && w != nil && resp != nil && req != nil
+//@   ensures form-data-is-three-plain-strings: plainStringFields("provider.authResponseForm") &&
+//@             (emitKind == 4 && emitCount == old(emitCount) + 1 ==> emitTmpl == r.PostTemplate && emitTag == typetag("provider.authResponseForm") &&
+//@                postForm().RelayState == r.RelayState && postForm().AssertionConsumerServiceURL == r.AcsUrl && postForm().SAMLResponse == b64enc(msgBytes()) &&
+//@                r.ProtocolBinding == PostBinding && r.AcsUrl != "")
+//@ func (*provider.LogoutResponse).sendBackLogoutResponse
+//@   inline
+//@   property C17
+//@   requires r != nil && r.LogoutTemplate != nil && r.ErrorFunc != 0 && w != nil && resp != nil
+//@   ensures form-data-is-three-plain-strings: plainStringFields("provider.LogoutResponseForm") &&
+//@             (emitKind == 4 && emitCount == old(emitCount) + 1 ==> emitTmpl == r.LogoutTemplate && emitTag == typetag("provider.LogoutResponseForm") &&
+//@                logoutForm().RelayState == r.RelayState && logoutForm().LogoutURL == r.LogoutURL && logoutForm().SAMLResponse == b64enc(msgBytes()) && r.LogoutURL != "")
